@@ -411,7 +411,7 @@ func runTDSchedule(t *testing.T, col *verifsim.Collector, kind string, specs []t
 	for i := range specs {
 		tl = append(tl, tdThreadTerm(&specs[i]))
 	}
-	term := fmt.Sprintf("TD addperm_ord addchan_ord [%s] [\n  %s\n]", strings.Join(tl, "; "), strings.Join(steps, ";\n  "))
+	term := fmt.Sprintf("%s [%s] [\n  %s\n]", tdTermHead, strings.Join(tl, "; "), strings.Join(steps, ";\n  "))
 	tag := kind
 	col.Add(kind, tag, true, term)
 	if err := col.Flush(); err != nil {
@@ -422,10 +422,24 @@ func runTDSchedule(t *testing.T, col *verifsim.Collector, kind string, specs []t
 	}
 }
 
-func TestVerif_C18TD(t *testing.T) { //nolint:cyclop
+func TestVerif_C18TD(t *testing.T) {
+	tdTermHead = "TD addperm_ord addchan_ord"
+	tdCampaign(t, "C18", "C18Check", "From Turn Require Import LockSkelGen.")
+}
+
+// the same forced schedules, judged by C15's "nothing remains after a teardown during a slow callback" (Check/C15TdCheck.v)
+func TestVerif_C15TD(t *testing.T) {
+	tdTermHead = "TDO"
+	tdCampaign(t, "C15td", "C15TdCheck", "")
+}
+
+// tdTermHead: constructor (and, for C18, the step orders extracted from the source) of the recorded case
+var tdTermHead = "TD addperm_ord addchan_ord"
+
+func tdCampaign(t *testing.T, colName, module, preamble string) { //nolint:cyclop
 	rng := verifsim.NewRNG(verifsim.Seed() + 1818)
-	col := verifsim.NewCollector("C18", "C18Check")
-	col.Preamble = "From Turn Require Import LockSkelGen."
+	col := verifsim.NewCollector(colName, module)
+	col.Preamble = preamble
 	col.PerFile = 100
 	P := func(a int) tdThread { return tdThread{kind: "perm", a: a} }
 	C := func(a int) tdThread { return tdThread{kind: "chan", a: a} }
